@@ -19,6 +19,7 @@ import z3
 from . import core
 from .core import Unsupported
 from . import values as V
+from . import ints as _ints
 from . import text as T
 from . import sre as _sre
 
@@ -254,6 +255,8 @@ def sx_bytes(x=b"", *a, **k):
         return x
     if _real_isinstance(x, (_real_bytearray, _real_memoryview)):
         return _real_bytes(x)
+    if _real_isinstance(x, V.SInt):
+        return V.mk_bytes([0] * V.conc_index(_ints.cost_guard(x, "bytes() of")))
     return V.mk_bytes(_items_from_iterable(x))
 
 
@@ -316,6 +319,8 @@ class ShimBytes(metaclass=_Meta):
 def sx_bytearray(x=b"", *a, **k):
     if a or k:
         return V.SByteArray(list(_real_bytearray(x, *a, **k)))
+    if _real_isinstance(x, V.SInt):
+        return V.SByteArray([0] * V.conc_index(_ints.cost_guard(x, "bytearray() of")))
     return V.SByteArray(_items_from_iterable(x))
 
 
